@@ -125,3 +125,43 @@ func VerifC02(shape int, T int, symLits int, twin int) {
 		}
 	}
 }
+
+// Generated family: a choice point P in front of a capture (B = x) whose continuation K can fail, placed
+// in every context in which the path through the capture can be abandoned while another path of the same
+// attempt succeeds. The classes come from the property statement (alternation, optional / repeated
+// groups, lists whose options overlap), not from particular programs.
+var c02GenList []string
+
+func c02Gen() []string {
+	if c02GenList != nil {
+		return c02GenList
+	}
+	prefixes := []string{"", "(in 'q', 'a', 'ab')", "('a' or 'ab')", "(at least 1 any)", "(maybe 'a')", "(at least 1 'a' fewest)"}
+	bodies := []string{"'b'", "any", "(at least 1 any)", "(at least 2 any)", "(in 'b', 'bc', 'q')", "(maybe 'b' any)"}
+	for _, p := range prefixes {
+		for _, b := range bodies {
+			c := "(" + b + " = x)"
+			// capture + failing continuation under alternation, under an optional group, under loops
+			c02GenList = append(c02GenList,
+				"find all ("+p+" "+c+" 'c') or 'a'",
+				"find all "+p+" (maybe ("+c+" 'x')) 'c'",
+				"find all at least 1 ("+p+" (maybe ("+c+" 'x')) ';')",
+				"find all "+p+" (("+c+" 'x') or ("+b+" = y)) maybe 'c'",
+			)
+		}
+	}
+	// back-reference decides after the abandoned binding
+	for _, p := range prefixes[1:] {
+		c02GenList = append(c02GenList, "find all "+p+" (maybe (('b' = x) 'x')) ((x 'c') or 'cc')")
+	}
+	return c02GenList
+}
+
+func VerifC02GenCount() int { return len(c02Gen()) }
+
+func VerifC02Gen(shape int, T int) {
+	saved := c02Shapes
+	c02Shapes = c02Gen()
+	defer func() { c02Shapes = saved }()
+	VerifC02(shape, T, 0, 0)
+}
